@@ -70,7 +70,7 @@ func TestC03_Rapid(t *testing.T) {
 		"attribute type 0x8020 is not passed to Add/AddToAs (decode-side legacy alias, DESIGN D1)",
 		"values written by typed setters are taken from the wire here; their RFC conformance is C06's oracle",
 	})
-	pbt.Check(t, rec, "trace", evid.Pick(4000, 60000), func(rt *rapid.T) (any, error) {
+	pbt.Check(t, rec, "trace", evid.Pick(15000, 80000), func(rt *rapid.T) (any, error) {
 		c := c03Case{Start: genStart(rt)}
 		c.Ops = rapid.SliceOfN(rapid.Custom(genStep), 1, 40).Draw(rt, "ops")
 		b, err := runC03(c)
